@@ -8,11 +8,16 @@ from .. import conv, gen, sexp
 from ..common import compare, incoq_crosscheck
 
 
-async def read_stream(chunks):
+async def read_stream(chunks, prefed=False):
+    """prefed: all chunks and the end of the stream are fed BEFORE the reader runs (a peer that sent and closed at once)."""
     reader = asyncio.StreamReader()
     sr = H.SOMEIPReader(reader)
     msgs, err = [], None
     total = sum(len(c) for c in chunks)
+    if prefed:
+        for c in chunks:
+            reader.feed_data(c)
+        reader.feed_eof()
 
     async def consume():
         nonlocal err
@@ -33,11 +38,12 @@ async def read_stream(chunks):
                 return
 
     task = asyncio.ensure_future(consume())
-    for c in chunks:
-        reader.feed_data(c)
-        await asyncio.sleep(0)
-        await asyncio.sleep(0)
-    reader.feed_eof()
+    if not prefed:
+        for c in chunks:
+            reader.feed_data(c)
+            await asyncio.sleep(0)
+            await asyncio.sleep(0)
+        reader.feed_eof()
     await task
     return msgs, err
 
@@ -66,7 +72,7 @@ def run(ctx):
     r = ctx.rng
     quick = ctx.tier == "quick"
     ctx.rule = ("streams of 0-8 messages (payload lengths boundary-biased up to 4096), each fed to asyncio.StreamReader under several "
-                "chunkings: whole, 1-byte chunks, every single cut, random cuts; all cut PAIRS for streams <= 40 bytes; (thorough) every "
+                "chunkings: whole, whole with the end of stream fed before the reader runs, 1-byte chunks, every single cut, random cuts; all cut PAIRS for streams <= 40 bytes; (thorough) every "
                 "cut SET of a 16/17-byte stream; truncation at every position; one corrupted header field; a corrupted header whose payload is cut short; a case = (stream, chunking), "
                 "non-trivial when distinct; each stream result is compared with datagram decoding of the concatenation (the property) and with the model")
     ctx.assumptions = ["asyncio.StreamReader.readexactly is chunking-independent (exercised, not modelled): the model reads from the concatenated stream"]
@@ -76,6 +82,8 @@ def run(ctx):
     for k in range(60 if quick else 1200):
         n = r.choice([0, 1, 1, 2, 3, 8])
         ms = [gen.message(r, maxlen=4096 if r.random() < 0.15 else 40) for _ in range(n)]
+        if ms and r.random() < 0.3:
+            ms[-1] = gen.message(r, maxlen=0)      # the stream ends with an empty-payload message
         data = b"".join(bytes(m.build()) for m in ms)
         kind = "valid"
         c = r.random()
@@ -105,7 +113,7 @@ def run(ctx):
     tiny = H.SOMEIPHeader(tiny.service_id, tiny.method_id, tiny.client_id, tiny.session_id, tiny.interface_version, tiny.message_type, 1, tiny.return_code, b"")
     short_streams = [bytes(tiny.build()), bytes(tiny.build()) + bytes(H.SOMEIPHeader(1, 2, 3, 4, 5, H.SOMEIPMessageType.REQUEST, payload=b"ab").build())]
     for data, kind in streams:
-        chunkings = [("whole", [data] if data else [])]
+        chunkings = [("whole", [data] if data else []), ("prefed", [data] if data else [])]
         if len(data) <= 300:
             chunkings.append(("bytes", [data[i:i + 1] for i in range(len(data))]))
             singles = range(1, len(data))
@@ -120,10 +128,10 @@ def run(ctx):
         dm, de = datagram_decode(data)
         want = ([conv.s_msg(m) for m in dm], None if de is None else [9 if de == 2 else de])
         for ck, chunks in chunkings:
-            sm, se = loop.run_until_complete(read_stream(chunks))
+            sm, se = loop.run_until_complete(read_stream(chunks, prefed=(ck == "prefed")))
             got = ([conv.s_msg(m) for m in sm], None if se is None else [se])
             if got != want:
-                ctx.violation("stream reading and datagram decoding disagree", dict(stream=data.hex()[:6000], chunks=[len(c) for c in chunks][:200], stream_result=sexp.dumps(list(got))[:1500], datagram_result=sexp.dumps(list(want))[:1500]))
+                ctx.violation("stream reading and datagram decoding disagree", dict(stream=data.hex()[:6000], chunks=[len(c) for c in chunks][:200], fed_before_reading=(ck == "prefed"), stream_result=sexp.dumps(list(got))[:1500], datagram_result=sexp.dumps(list(want))[:1500]))
             if kind == "truncated" and se is None and len(sm) > len(dm):
                 ctx.violation("a truncated stream yielded a truncated message", dict(stream=data.hex()[:6000]))
             ctx.case((data, tuple(len(c) for c in chunks)), kind=f"{kind}-{ck}",
@@ -170,3 +178,26 @@ def run(ctx):
     loop.close()
     outs = compare(ctx, cases, impl, "SOMEIPHeader.read / parse sequence differs from Model/Someip.v", lambda i: repr(descr[i]))
     incoq_crosscheck(ctx, cases, outs, limit=100 if quick else 400)
+
+
+def replay(ctx, rp):
+    """Re-run one recorded case: the stream, cut into the recorded chunk sizes, against datagram decoding of the same bytes."""
+    if "stream" not in rp or "chunks" not in rp:
+        print("(no stream recorded in this replay)")
+        return 1
+    data = bytes.fromhex(rp["stream"])
+    chunks, pos = [], 0
+    for n in rp["chunks"]:
+        chunks.append(data[pos:pos + n])
+        pos += n
+    loop = asyncio.new_event_loop()
+    try:
+        sm, se = loop.run_until_complete(read_stream(chunks, prefed=bool(rp.get("fed_before_reading"))))
+    finally:
+        loop.close()
+    dm, de = datagram_decode(data)
+    want = ([conv.s_msg(m) for m in dm], None if de is None else [9 if de == 2 else de])
+    got = ([conv.s_msg(m) for m in sm], None if se is None else [se])
+    print("stream reader  :", sexp.dumps(list(got))[:1500])
+    print("datagram decode:", sexp.dumps(list(want))[:1500])
+    return 0 if got == want else 1
